@@ -326,6 +326,47 @@ pub fn server_child(depth: usize) -> i32 {
         let _ = sess.server.run_default();
         n += 1;
     }
+    // an untitled: buffer whose URI carries an absolute path (the editor was started on a file that
+    // does not exist yet): adding a word for it must not write next to that path
+    {
+        if let Ok(mut sess) = Session::new("c10") {
+            println!("world {}", sess.world.root.display());
+            let uri = format!("untitled:{}/sub/draft.md", sess.world.docs_dir.display());
+            let open = crate::e3::Server::notification("textDocument/didOpen", json!({"textDocument": {"uri": uri, "languageId": "markdown", "version": 1, "text": "I like my tset."}}));
+            sess.server.enqueue("open-untitled-abs", open);
+            let _ = sess.server.run_default();
+            for cmd in ["HarperAddToFileDict", "HarperAddToUserDict"] {
+                let add = sess.server.request("workspace/executeCommand", json!({"command": cmd, "arguments": ["tset", uri]}));
+                sess.server.enqueue("add-untitled-abs", add);
+                let _ = sess.server.run_default();
+            }
+            n += 1;
+        }
+    }
+    // the checked text names hosts: linting it and asking for code actions ON the addresses must
+    // not look any of them up
+    {
+        if let Ok(mut sess) = Session::new("c10") {
+            println!("world {}", sess.world.root.display());
+            let uri = sess.uri(0);
+            let text = "See https://zzq-harper-host.invalid/path and http://zzqhost.example:8080/x or ftp://zzq.example/f, mail zzq@zzqmail.example about teh tset.";
+            let open = crate::e3::Server::notification("textDocument/didOpen", json!({"textDocument": {"uri": uri, "languageId": "markdown", "version": 1, "text": text}}));
+            sess.server.enqueue("open-with-urls", open);
+            let _ = sess.server.run_default();
+            let n_chars = text.chars().count() as u32;
+            let mut col = 0u32;
+            while col < n_chars {
+                let req = sess.server.request("textDocument/codeAction", json!({"textDocument": {"uri": uri}, "range": {"start": {"line": 0, "character": col}, "end": {"line": 0, "character": col + 1}}, "context": {"diagnostics": []}}));
+                sess.server.enqueue("codeAction-on-address", req);
+                let _ = sess.server.run_default();
+                col += 3;
+            }
+            let req = sess.server.request("textDocument/codeAction", json!({"textDocument": {"uri": uri}, "range": {"start": {"line": 0, "character": 0}, "end": {"line": 0, "character": n_chars}}, "context": {"diagnostics": []}}));
+            sess.server.enqueue("codeAction-whole-line", req);
+            let _ = sess.server.run_default();
+            n += 1;
+        }
+    }
     // fault path: the configured statistics path cannot be opened (it is a directory)
     {
         if let Ok(mut sess) = Session::new("c10") {
@@ -656,8 +697,10 @@ fn run_hv_child(args: &[&str], report: &mut Report, label: &str) -> Option<(Moni
             return true; // sandboxed HOME created by the harness itself
         }
         for w in &worlds {
-            if p == w.as_path() || p == w.join("docs") || p.starts_with(w.join("docs")) {
-                return true; // the harness plays the editor: it owns the documents
+            // the harness plays the editor: it creates the documents directory and writes exactly
+            // these two buffers (didSave); anything else next to the documents is the server's doing
+            if p == w.as_path() || p == w.join("docs") || p == w.join("docs/a.md") || p == w.join("docs/b.txt") {
+                return true;
             }
             let ok_files = [w.join("cfg/dictionary.txt"), w.join("cfg/dictionary.txt.tmp"), w.join("data/stats.txt"), w.join("data/custom-stats/stats.txt")];
             if ok_files.iter().any(|f| f == p) || p.starts_with(w.join("data/file_dictionaries")) {
